@@ -291,6 +291,22 @@ func (c *c19) flow(b *world.Browser, issuer string, doc *oidc.DiscoveryConfigura
 		if !honoured {
 			c.viol("request-object-not-honoured", "authorize", "request_parameter_supported is advertised but a valid signed request object was not honoured (%d %s)", r.Status, firstLine(r.Body))
 		}
+		// a history: the next object carries nothing but what is required; the request must then be exactly the outer
+		// parameters plus this object - nothing of the object sent before
+		bare := signRaw([]byte(fmt.Sprintf(`{"iss":"jwt","aud":[%q],"client_id":"jwt","response_type":"code"}`, issuer)), "RS256", key.Key, key.KeyID)
+		q2 := url.Values{"client_id": {"jwt"}, "redirect_uri": {jc.Redirects[0]}, "response_type": {"code"}, "scope": {"openid"}, "state": {"outer-2"}, "nonce": {"outer-nonce-2"}, "request": {bare}}
+		r2 := b.Get(doc.AuthorizationEndpoint + "?" + q2.Encode())
+		if r2.Status == 302 && strings.Contains(r2.Location, "/login?") {
+			u, _ := url.Parse(r2.Location)
+			if a := w.Store.AuthReqSnapshot(u.Query().Get("authRequestID")); a != nil {
+				c.o.Probe("request-object-history-probes")
+				if a.State != "outer-2" || a.Nonce != "outer-nonce-2" || a.Challenge != nil || !sameSet(a.Scopes, []string{"openid"}) {
+					c.viol("request-object-not-honoured", "authorize/history", "a request object with only the required members, sent after a fuller one, produced a request with state=%q nonce=%q challenge=%+v scopes=%v (outer parameters: state=outer-2 nonce=outer-nonce-2, no challenge, scope openid)", a.State, a.Nonce, a.Challenge, a.Scopes)
+				}
+			}
+		} else {
+			c.viol("request-object-not-honoured", "authorize/bare", "a valid signed request object with only the required members was refused (%d %s)", r2.Status, firstLine(r2.Body))
+		}
 	}
 }
 
